@@ -150,9 +150,11 @@ def Ghost.next (g : Ghost) : Op → Out → Ghost
   | .bdp n, .done => { g with adv := g.adv + ((n : Int) - g.cfg), cfg := n }
   | _, _ => g
 
-/-- "the window is restored": the peer holds the configured window up to the batched quarter, and can send -/
+/-- "the window is restored": the peer holds the configured window except for a batched credit that is
+    zero or strictly below a quarter of it (`adv ≥ cfg ∨ adv + cfg/4 > cfg`), and it can send. -/
 def Ghost.restored (g : Ghost) : Bool :=
-  decide (g.adv + ((g.cfg / 4 : Nat) : Int) ≥ (g.cfg : Int)) && (decide (g.cfg = 0) || decide (g.adv > 0))
+  (decide (g.adv ≥ (g.cfg : Int)) || decide (g.adv + ((g.cfg / 4 : Nat) : Int) > (g.cfg : Int)))
+    && (decide (g.cfg = 0) || decide (g.adv > 0))
 
 /-- window clauses of C04 on a ghost state -/
 def Ghost.windowErr (g : Ghost) : Option String :=
@@ -241,6 +243,11 @@ def TState.legal (s : TState) : TOp → Bool
   | .data n => decide ((n : Int) ≤ s.adv) && decide (n < 16777216)   -- a conforming peer
   | .reset => true
   | .bdp n => decide (s.f.limit ≤ n) && decide (n ≤ fcBdpLimit)
+
+/-- the connection window is replenished on reception: `unacked` is zero or strictly below a quarter -/
+def connRestored (adv : Int) (limit : Nat) : Bool :=
+  (decide (adv ≥ (limit : Int)) || decide (adv + ((limit / 4 : Nat) : Int) > (limit : Int)))
+    && (decide (limit = 0) || decide (adv > 0))
 
 def trun (s : TState) : List TOp → TState
   | [] => s
